@@ -91,6 +91,14 @@ def run(tier, work):
     # 5. through the store: TTL entries under the real ticker path (schedule / re-schedule on TTL update /
     #    expiry re-check), replayed TLC schedules and free-running histories, validated by StoreTrace
     import storelib
+    # the expiry decision and the removal of the map slot as one shard critical section (Store.tla NoBadC04); the design
+    # before the repair D20 (comparison outside the shard lock) must violate it
+    smc = storelib.tlc_mc(work, "StoreMC_exp_small.cfg", tag="mc_exp_small")
+    states += smc.distinct
+    trans += smc.generated
+    d20 = vlib.run_tlc(work, "StoreMC", "StoreMC_d20.cfg", workers=8, timeout=1200, tag="mc_d20")
+    if d20.violation != "NoBadC04":
+        raise vlib.MachineryError("Store.tla with FixD20 = FALSE does not violate NoBadC04 (got %r)" % (d20.violation,))
     store_traces = 0
     for (kind, env, fname, test) in (("replay", None, "store_replay.ndjson", "TestVerif_StoreReplay"),
                                      ("free", {"VERIF_N": 24 if thorough else 6}, "store_free.ndjson", "TestVerif_StoreFree"),
